@@ -457,6 +457,10 @@ func (h *hist) loadAndCompare(chain []backupRec, srcScan []obsItem, cfgLast stre
 	defer os.RemoveAll(dir)
 	to := h.o
 	to.Managed = false
+	// half of the targets get a memtable of a few KiB: their maxBatchCount / maxBatchSize are a
+	// handful of entries / a few hundred bytes, so Load needs several loader batches
+	to.MemSize = []int64{0, 0, 0, 2048, 4096, 8192}[h.c.Rng.Intn(6)]
+	h.c.Count(fmt.Sprintf("load-target-mem=%d", memSize(to)))
 	tdb, err := openSysDB(dir, to)
 	if err != nil {
 		return err
@@ -552,7 +556,7 @@ func (h *hist) loadAndCompare(chain []backupRec, srcScan []obsItem, cfgLast stre
 	}
 	h.c.Oracle(next > maxVer(all), "c24-next-ts-not-raised", "after Load nextTxnTs is not above every loaded version", J{"next": next})
 	term := fmt.Sprintf("(Loaded %d %d %d %s %d %d %s %s)", h.o.NKeep, next0, now, skvTerms(all), next, trts, obsTerms(tscan), ListOf(gets))
-	h.c.Case("load", term, J{"kvs": len(all), "chain": len(chain), "digest": digest([]string{term})})
+	h.c.Case("load", h.c.sterm(term), J{"kvs": len(all), "chain": len(chain), "digest": digest([]string{term})})
 	return nil
 }
 
@@ -659,7 +663,7 @@ func (h *hist) ktlCases(rts uint64, n int) error {
 		itr.Alloc.Release()
 		itr.Close()
 		term := fmt.Sprintf("(KTL %s %d %s %s %s %d)", kd, now, B(kparam), obsTerms(its), out, remaining)
-		c.Case("ktl", term, J{"kd": kd, "key": kparam, "rts": rts, "itsince": itSince, "prefix": prefix, "n_items": len(its), "digest": digest([]string{term})})
+		c.Case("ktl", c.sterm(term), J{"kd": kd, "key": kparam, "rts": rts, "itsince": itSince, "prefix": prefix, "n_items": len(its), "digest": digest([]string{term})})
 		// property at function level: every KV is a stored version of the key with the stored
 		// content; no transaction bits; nothing at or below SinceTs
 		ok := true
@@ -888,6 +892,12 @@ func runStreamProp(c *Ctx, mk func(i int) *streamProfile) error {
 	if err := runStreamScenarios(c); err != nil {
 		return err
 	}
+	if c.Prop == "C24" {
+		// loads that span several loader batches (c24load.go)
+		if err := runLoaderScenarios(c); err != nil {
+			return err
+		}
+	}
 	for i := 0; c.nCases < c.N; i++ {
 		p := mk(i)
 		h, err := runStreamHistory(c, p, i)
@@ -897,7 +907,12 @@ func runStreamProp(c *Ctx, mk func(i int) *streamProfile) error {
 			}
 			return err
 		}
-		c.Case(p.name, h.xterm(), histInput(h))
+		c.Case(p.name, c.sterm(h.xterm()), histInput(h))
+		if c.Prop == "C24" && i%4 == 3 {
+			if err := runLdRandom(c, i); err != nil {
+				return err
+			}
+		}
 	}
 	return nil
 }
